@@ -19,6 +19,7 @@ import (
 	"github.com/tink-crypto/tink-go/v2/mac"
 	"github.com/tink-crypto/tink-go/v2/prf"
 	"github.com/tink-crypto/tink-go/v2/signature"
+	"github.com/tink-crypto/tink-go/v2/signprehash"
 	"github.com/tink-crypto/tink-go/v2/streamingaead"
 	"github.com/tink-crypto/tink-go/v2/tink"
 	"verif/props/keycat"
@@ -42,6 +43,9 @@ type prims struct {
 	jverify jwt.Verifier
 	deriver keyderivation.KeysetDeriver
 	pubH    *keyset.Handle
+	// ML-DSA external-mu primitives (signprehash), present when the key supports them
+	prehash  tink.Prehash
+	psigner  tink.PrehashSigner
 }
 
 func buildPrims(class keycat.Class, kh *keyset.Handle) (*prims, error) {
@@ -66,6 +70,13 @@ func buildPrims(class keycat.Class, kh *keyset.Handle) (*prims, error) {
 		if p.sign, err = signature.NewSigner(kh); err == nil {
 			if err = pub(); err == nil {
 				p.verify, err = signature.NewVerifier(p.pubH)
+			}
+		}
+		if err == nil {
+			if ph, e := signprehash.NewPrehash(p.pubH); e == nil {
+				if ps, e := signprehash.NewPrehashSigner(kh); e == nil {
+					p.prehash, p.psigner = ph, ps
+				}
 			}
 		}
 	case keycat.ClassHybridDecrypt:
@@ -451,6 +462,9 @@ func (d *driver) run() {
 		d.signVerify(d.op("mac.ComputeMAC"), d.op("mac.VerifyMAC"), p.mac.ComputeMAC, p.mac.VerifyMAC, tw.mac.VerifyMAC, tw.mac.ComputeMAC, true)
 	case keycat.ClassSign:
 		d.signVerify(d.op("signature.Sign"), d.op("signature.Verify"), p.sign.Sign, p.verify.Verify, tw.verify.Verify, tw.sign.Sign, false)
+		if p.prehash != nil && tw.prehash != nil {
+			d.prehashes()
+		}
 	case keycat.ClassPRF:
 		d.prfs()
 	case keycat.ClassStreaming:
@@ -459,6 +473,36 @@ func (d *driver) run() {
 		d.jwt()
 	case keycat.ClassDeriver:
 		d.derive()
+	}
+}
+
+// prehashes drives the ML-DSA external-mu primitives: ComputePrehash(data) and SignPrehash(prehash).
+func (d *driver) prehashes() {
+	p, tw := d.p, d.tw
+	opC, opS := d.op("signprehash.ComputePrehash"), d.op("signprehash.SignPrehash")
+	for _, l := range d.layouts(1) {
+		for _, n := range d.lens {
+			data := ref.GuardText(3, n)
+			ph, err := d.call(opC, l, func(a [][]byte) ([]byte, error) { return p.prehash.ComputePrehash(a[0]) }, data)
+			want, err2 := tw.prehash.ComputePrehash(clone(data))
+			if err2 != nil {
+				d.fail("op-error", opC, "twin: %v", err2)
+				continue
+			}
+			if !d.expect(opC, ph, err, want) {
+				continue
+			}
+			sig, err := d.call(opS, l, func(a [][]byte) ([]byte, error) { return p.psigner.SignPrehash(a[0]) }, ph)
+			if err != nil {
+				d.fail("op-error", opS, "%v", err)
+				continue
+			}
+			if tw.verify.Verify(clone(sig), clone(data)) == nil {
+				d.t.x.Outcome("prehash-signature-verifies-under-twin")
+			} else {
+				d.t.x.Outcome("prehash-signature-not-checked")
+			}
+		}
 	}
 }
 
